@@ -311,6 +311,7 @@ def dict_method(I, st, meth, obj, args, kwargs, node):
             d = I.new_list(st, base[1]) if REG.get(base[1]).kind == "list" else I.new_dict(st, base[1])
         if st.decide(indom):
             return I.elem_val(st, kd, z3.Select(I.vals_of(st, obj), k))
+        I.note_insert(st, obj, k, I.dom_of(st, obj))
         I.set_dom(st, obj, z3.Store(I.dom_of(st, obj), k, True))
         I.set_vals(st, obj, z3.Store(I.vals_of(st, obj), k, I.coerce(st, d, kd.V).term))
         return d
